@@ -138,6 +138,12 @@ pub struct Mon {
     pub panicked: bool,
     /// objects whose allocation was given up by try_unwrap / make_mut while peers had records (C12)
     pub consumed_with_links: Set,
+    /// objects that have had a recorded adoption (as owner or target) at some point
+    pub ever_linked: Set,
+    /// put `ever_linked` into the canonical key (C14: an object that was adopted and
+    /// fully unadopted again has the same records as one that never was, but its
+    /// table has a past)
+    pub key_includes_past: bool,
     // ---- per outermost call ----
     pub must_die: Set,
     pub died_now: Set,
@@ -167,6 +173,8 @@ impl Mon {
             pre_broken: false,
             panicked: false,
             consumed_with_links: 0,
+            ever_linked: 0,
+            key_includes_past: false,
             must_die: 0,
             died_now: 0,
             upgrade_none: 0,
@@ -478,8 +486,14 @@ impl Mon {
         self.slots[p as usize].push(o);
         match m {
             StoreMode::Plain => {}
-            StoreMode::Adopt | StoreMode::StoreThenAdopt => self.rec[p as usize][o as usize] += 1,
-            StoreMode::SameRef => self.lp[p as usize] += 1,
+            StoreMode::Adopt | StoreMode::StoreThenAdopt => {
+                self.rec[p as usize][o as usize] += 1;
+                self.ever_linked |= bit(p) | bit(o);
+            }
+            StoreMode::SameRef => {
+                self.lp[p as usize] += 1;
+                self.ever_linked |= bit(p);
+            }
         }
     }
 
@@ -756,5 +770,8 @@ impl Mon {
         out.push(self.pre_broken as u8);
         out.push(self.panicked as u8);
         out.push(self.consumed_with_links);
+        if self.key_includes_past {
+            out.push(self.ever_linked);
+        }
     }
 }
